@@ -23,7 +23,8 @@ def pred_f24(case, record, expected_text):
 
 
 # F25: return() into a generator that is suspended at a yield inside a finally block
-F25_RE = re.compile(r"function\s*\*.*finally\s*\{[^}]*\byield\b.*\.return\s*\(", re.S)
+# (return() is either called explicitly or by the iterator-close of a for-of that is left by break)
+F25_RE = re.compile(r"function\s*\*.*finally\s*\{[^}]*\byield\b.*(?:\.return\s*\(|\bof\b[^;{}]*\)\s*\{?\s*break\b)", re.S)
 
 
 def pred_f25(case, record, expected_text):
@@ -57,8 +58,7 @@ def candidates(case):
 
 
 def stage(ctx):
-    """corpus + generated cases; mismatches that are explained by F18 alone (the neutralised program is clean)
-    are reported as the known finding, everything else goes through the generic shrink / classify / report path"""
+    """corpus + generated cases (verifier stream and crash-search stream), then verifier-coverage figures"""
     cfg = ctx.cfg
     binp = vcheck.build_harness(ctx)
     if not binp or not getattr(ctx, "model_ok", True):
@@ -100,7 +100,7 @@ def stage(ctx):
     unknown = sorted(k[13:] for k in dist if k.startswith("unknown-kind:"))
     table = [l.split(";")[0] for l in open(os.path.join(vcheck.HARNESS, "cmd", "c01", "table.spec"))
              if l.strip() and not l.startswith("#")]
-    progs = sum(1 for r in all_recs if any(t.startswith("bodies:") and t != "bodies:0" for t in r.get("tags", [])))
+    progs = sum(1 for r in all_recs if any(re.fullmatch(r"bodies:[1-9]", t) for t in r.get("tags", [])))
     ctx.cov["verifier"] = {
         "programs_with_code_verified": progs,
         "search_inputs": len(all_recs),
@@ -129,10 +129,10 @@ CFG = {
     "level": "translation_validation",
     "stages": [stage],
     "candidates": candidates,
-    "rule": ("each case is one source text: 40% grammar-generated programs (expressions, statements, functions/arrows/classes/"
+    "rule": ("each case is one source text: 5% (gen_extra vp, per mille) are VERIFIER cases = grammar-generated programs (expressions, statements, functions/arrows/classes/"
              "generators/async, destructuring, templates, regex literals, labels, accessors, optional chaining, spread, BigInt, "
              "private names, with, eval) compiled strict or sloppy, dumped (VerifDump), verified body by body inside Coq, run under "
-             "VerifTrace; 6% the same as eval code (global and function-level direct eval, VerifCompileEval); the rest is the crash "
+             "VerifTrace; 12% of those as eval code (global and function-level direct eval, VerifCompileEval), each distinct code body sent to Coq once per harness process; the rest is the crash-search stream (oracle bits only, no code sent to Coq): generated programs and fragments with the crash-prone shapes over-represented (switch+lexical+eval, optional calls with spread, parameter expressions+eval, dead code after break/continue, generators with finally driven by next/throw/return from several call depths, private names, typed arrays, sticky regexps, \\u{...} identifiers, destructuring loop heads with closures, arguments objects), "
              "search: token-level mutants, arbitrary bytes (<= 64 KiB), deep nesting (<= 200) and generated fragments through "
              "Compile+RunProgram, eval, direct eval in a function, new Function, parser.ParseFile; non-trivial = it produced at "
              "least one code body or is a search input; distinct = by hash of the case"),
@@ -147,7 +147,7 @@ CFG = {
         "/repo/verif_hooks_c01.go (VerifDump, VerifTrace, VerifCompileEval) and the Go harness harness/cmd/c01",
     ],
     "assumptions": [
-        "stack safety is about operand-stack HEIGHT and try-stack discipline only: the kind of value in a slot (object vs primitive, "
+        "ret is exact up to one slot per enclosing adopting block (a block may own the operand below it: catch parameter / switch discriminant kept on the stack, and a return does not emit leaveBlock); stack safety is about operand-stack HEIGHT and try-stack discipline only: the kind of value in a slot (object vs primitive, "
         "reference stack, iterator stack contents) is not modelled",
         "builtins, the parser and the lexer are covered only by the crash search, not by proof",
         "an instruction kind missing from the table makes the verifier skip the body (reported as coverage gap)",
